@@ -537,7 +537,7 @@ def _instantiate_axioms(formulas, rounds=5):
         apps = []
         for f in work:
             _walk(f, seen, apps)
-        if rnd <= 2:
+        if rnd <= 3:
             # seeds of the eager application: sequences that are one side of an equation
             _collect_concats(work, cseen, concats)
         for sf, app in apps:
